@@ -4,6 +4,7 @@ import (
 	"context"
 	"errors"
 	"fmt"
+	"sync"
 	"time"
 
 	"github.com/ipfs/go-cid"
@@ -46,6 +47,28 @@ type Channels struct {
 	progressCache        *progressCache
 	stateMachines        fsm.Group
 	migrateStateMachines func(context.Context) error
+
+	// stopLk is held (shared) by every operation that may start or feed a channel
+	// state machine and (exclusively) by Stop, so that nothing reaches the state
+	// machines once they are being stopped
+	stopLk  sync.RWMutex
+	stopped bool
+}
+
+// ErrStopped is returned by channel operations attempted after Stop
+var ErrStopped = errors.New("data-transfer channels are stopped")
+
+// running takes the shared stop lock; the returned function releases it. It
+// fails once the state machines have been stopped: a state machine started after
+// that point could never be served (its notification queue is gone) and would
+// block every later operation on the whole group
+func (c *Channels) running() (func(), error) {
+	c.stopLk.RLock()
+	if c.stopped {
+		c.stopLk.RUnlock()
+		return nil, ErrStopped
+	}
+	return c.stopLk.RUnlock, nil
 }
 
 // ChannelEnvironment -- just a proxy for DTNetwork for now
@@ -91,6 +114,12 @@ func (c *Channels) Start(ctx context.Context) error {
 
 // Stop stops the channel statemachine
 func (c *Channels) Stop(ctx context.Context) error {
+	c.stopLk.Lock()
+	defer c.stopLk.Unlock()
+	if c.stopped {
+		return nil
+	}
+	c.stopped = true
 	return c.stateMachines.Stop(ctx)
 }
 
@@ -122,7 +151,12 @@ func (c *Channels) CreateNew(selfPeer peer.ID, tid datatransfer.TransferID, base
 		responder = dataSender
 	}
 	chid := datatransfer.ChannelID{Initiator: initiator, Responder: responder, ID: tid}
-	err := c.stateMachines.Begin(chid, &internal.ChannelState{
+	done, err := c.running()
+	if err != nil {
+		return datatransfer.ChannelID{}, err
+	}
+	defer done()
+	err = c.stateMachines.Begin(chid, &internal.ChannelState{
 		SelfPeer:   selfPeer,
 		TransferID: tid,
 		Initiator:  initiator,
@@ -168,6 +202,16 @@ func (c *Channels) InProgress() (map[datatransfer.ChannelID]datatransfer.Channel
 // GetByID searches for a channel in the slice of channels with id `chid`.
 // Returns datatransfer.EmptyChannelState if there is no channel with that id
 func (c *Channels) GetByID(ctx context.Context, chid datatransfer.ChannelID) (datatransfer.ChannelState, error) {
+	done, err := c.running()
+	if err != nil {
+		return nil, err
+	}
+	defer done()
+	return c.getByID(ctx, chid)
+}
+
+// getByID is GetByID for callers that already hold the shared stop lock
+func (c *Channels) getByID(ctx context.Context, chid datatransfer.ChannelID) (datatransfer.ChannelState, error) {
 	var internalChannel internal.ChannelState
 	err := c.stateMachines.GetSync(ctx, chid, &internalChannel)
 	if err != nil {
@@ -203,7 +247,7 @@ func (c *Channels) CompleteCleanupOnRestart(chid datatransfer.ChannelID) error {
 }
 
 func (c *Channels) getQueuedIndex(chid datatransfer.ChannelID) (int64, error) {
-	chst, err := c.GetByID(context.TODO(), chid)
+	chst, err := c.getByID(context.TODO(), chid)
 	if err != nil {
 		return 0, err
 	}
@@ -211,7 +255,7 @@ func (c *Channels) getQueuedIndex(chid datatransfer.ChannelID) (int64, error) {
 }
 
 func (c *Channels) getReceivedIndex(chid datatransfer.ChannelID) (int64, error) {
-	chst, err := c.GetByID(context.TODO(), chid)
+	chst, err := c.getByID(context.TODO(), chid)
 	if err != nil {
 		return 0, err
 	}
@@ -219,7 +263,7 @@ func (c *Channels) getReceivedIndex(chid datatransfer.ChannelID) (int64, error) 
 }
 
 func (c *Channels) getSentIndex(chid datatransfer.ChannelID) (int64, error) {
-	chst, err := c.GetByID(context.TODO(), chid)
+	chst, err := c.getByID(context.TODO(), chid)
 	if err != nil {
 		return 0, err
 	}
@@ -227,7 +271,7 @@ func (c *Channels) getSentIndex(chid datatransfer.ChannelID) (int64, error) {
 }
 
 func (c *Channels) getQueuedProgress(chid datatransfer.ChannelID) (uint64, uint64, error) {
-	chst, err := c.GetByID(context.TODO(), chid)
+	chst, err := c.getByID(context.TODO(), chid)
 	if err != nil {
 		return 0, 0, err
 	}
@@ -236,7 +280,7 @@ func (c *Channels) getQueuedProgress(chid datatransfer.ChannelID) (uint64, uint6
 }
 
 func (c *Channels) getReceivedProgress(chid datatransfer.ChannelID) (uint64, uint64, error) {
-	chst, err := c.GetByID(context.TODO(), chid)
+	chst, err := c.getByID(context.TODO(), chid)
 	if err != nil {
 		return 0, 0, err
 	}
@@ -381,6 +425,11 @@ func (c *Channels) HasChannel(chid datatransfer.ChannelID) (bool, error) {
 // the method will fire DataSent AND DataProgress AND DataLimitExceeded AND it will return
 // datatransfer.ErrPause as the error
 func (c *Channels) fireProgressEvent(chid datatransfer.ChannelID, evt datatransfer.EventCode, progressEvt datatransfer.EventCode, delta uint64, index int64, unique bool, readFromOriginal readIndexFn, readProgress readProgressFn) error {
+	done, err := c.running()
+	if err != nil {
+		return err
+	}
+	defer done()
 	if err := c.checkChannelExists(chid, evt); err != nil {
 		return err
 	}
@@ -444,7 +493,12 @@ func (c *Channels) checkEvents(chid datatransfer.ChannelID, evt datatransfer.Eve
 }
 
 func (c *Channels) send(chid datatransfer.ChannelID, code datatransfer.EventCode, args ...interface{}) error {
-	err := c.checkChannelExists(chid, code)
+	done, err := c.running()
+	if err != nil {
+		return err
+	}
+	defer done()
+	err = c.checkChannelExists(chid, code)
 	if err != nil {
 		return err
 	}
